@@ -11,6 +11,7 @@ func init() {
 		Title:       "Bounds is the tight bounding box and FastBounds contains it",
 		Explanation: "Decides, for every path, the structural clauses of Bounds/FastBounds/Rect hulls: each accumulator returned as a low (high) side is only ever updated by math.Min (math.Max) folds that include itself; no fold nests the opposite operator; Bounds folds every segment end point into all four sides unconditionally; FastBounds folds every decoded control/end point into all four sides with min/max and X/Y candidate sets mirrored (arc: centre∓max(rx,ry)); Rect.Transform/Add/AddPoint hulls are pure and complete. A violated clause makes the box exclude a point of the path for some input. NOT decided: which Bézier/arc extrema are computed (root finding, angle tests), tightness, equivariance.",
 		Run: func(c *core.Ctx, r *core.Report) {
+			E11ArcRotationRewritten(c, r)
 			E11AngleRangeNormalised(c, r)
 			E2CarriedShadow(c, r)
 			E3ArcShortcut(c, r)
@@ -169,6 +170,7 @@ func init() {
 		Explanation: "Decides one clause only, 'terminates with a result for any sequence of items' in its no-panic part: every index of the caller-supplied item slice in Linebreak and the linebreaker methods is dominated by a bound check or is an index parameter whose bound is established at every call site (interprocedural index contract), and no explicit panic is reachable from Linebreak. NOT decided: legality of breakpoints, feasibility, optimality, relaxation of the tolerance, termination.",
 		Assumptions: []string{"lb.items[active.Position] (a position stored earlier from a checked index) is listed as unclassified, not decided"},
 		Run: func(c *core.Ctx, r *core.Report) {
+			E11BreakWidth(c, r)
 			E4FlaggedPairRealBreak(c, r)
 			E4ListLinks(c, r)
 			E4RunningTotalsFixed(c, r)
@@ -227,6 +229,7 @@ func init() {
 		Explanation: "Decides structural agreement among the four back-ends for every drawing: each RenderPath reads every Style field (a back-end that never reads a field cannot honour it); every explicit Dash call receives canvas.ScaleDash(style.StrokeWidth, …) like the reference rasterizer; every path serialised by ToSVG/ToPDF/ToPS/ToScanxScanner derives on every path from Transform(M) with M built from the view parameter (SVG: with the y-flip), incl. the explicit-outline fall-backs; cap/join codes per concrete Capper/Joiner type agree with the formats' tables and the even-odd marker is emitted only under FillRule == EvenOdd; the emitted PDF and PostScript fragments form only operators of the respective vocabulary with balanced save/restore (abstract interpretation with path-sensitive repeated conditions), and procedure names emitted by Path.ToPS are defined in the PS prolog. NOT decided: that an interpreter of the output paints the same pixels, gradients/patterns, text, opacity, unit factors, Positive/Negative fill rules (no back-end format has them).",
 		Assumptions: []string{"the rasterizer is the reference for dash scaling", "PS.RenderImage (binary image data) is outside the grammar rule"},
 		Run: func(c *core.Ctx, r *core.Report) {
+			E2PenTracking(c, r, []string{"Path.ToSVG", "Path.ToPS", "Path.ToPDF"})
 			E5NameMemoScope(c, r)
 			E5PageMemoFresh(c, r)
 			E5Resources(c, r)
@@ -263,6 +266,7 @@ func init() {
 		Explanation: "Decides, for every path and argument: (1) every exported method of *Path/Paths other than the documented in-place mutators/sinks (each re-justified by its doc phrase) writes no memory reachable from its receiver or arguments — interprocedural effect analysis on SSA; the copy-on-write latch of replace is verified structurally; (2) the command encoding discipline: cmdLen vs the format, payload offsets inside the decoded record, every record built/retagged with the command at both ends; Split hands out capacity-limited sub-slices; (3) no in-place transform accumulates over loop iterations, no loop state variable is stuck at its initial constant. (4) since batch 12: every explicit panic reachable from Settle/And/Or/Xor/Not/DivideBy is a reviewed precondition or data-structure guard, or a known finding with a failing input; the sweep's work-list loop is reported for having no explicit bound (known finding: an operand pair on which Or does not return). NOT decided: 'no zero-length segments', the geometry the builders trace, implicit run-time panics other than those named, termination of anything but that loop.",
 		Assumptions: []string{"standard-library functions not in the mutator table are pure (listed in coverage.external_assumed)", "results of calls through function-typed parameters are fresh objects", "one reviewed call edge: Dash -> Join (reason in the checker's exception table)"},
 		Run: func(c *core.Ctx, r *core.Report) {
+			E8Units(c, r)
 			E9MovedNodeHeight(c, r)
 			E2BackwardStepKnownKind(c, r)
 			E11SVGSmooth(c, r)
@@ -322,6 +326,8 @@ func init() {
 		Title:       "Context and Canvas apply views, coordinate systems and state as documented",
 		Explanation: "Decides, for every call sequence: view helpers are exactly `view = view.Mul(Identity.<same-named op>(own parameters))` (post-multiplication) and ComposeView post-multiplies its argument; the four draw entry points assemble the same matrix CoordSystemView().Mul(view).Translate(coordView.Dot(x,y)) and compensate text/images exactly in the coordinate systems whose CoordSystemView reflects that axis; every Set*/Reset* method stores only into ContextState; Push saves and Pop restores the whole ContextState (Pop guarded, shrinking by one); Fill/Stroke clear and restore exactly the other paint; drawing does not rewrite the dash array shared with pushed states; RenderViewTo replays in sorted z-index then slice order with no renderer call inside a map range, and recording appends to the current z-index slice. NOT decided: the matrix algebra itself, Fit/Clip/Transform arithmetic, that DrawPath with several paths keeps per-path stroke state.",
 		Run: func(c *core.Ctx, r *core.Report) {
+			E11AboutIsConjugation(c, r)
+			E11MatrixComposers(c, r)
 			E11LayerMatrixLeft(c, r)
 			E11ImageExtentFromSize(c, r)
 			E11DashPairTogether(c, r)
@@ -437,6 +443,7 @@ func init() {
 		Title:       "Embedded fonts and glyph paths reproduce the laid-out text",
 		Explanation: "Decides three structural clauses: (1) 'the glyph subsetter assigns each used glyph one stable code with .notdef at zero' — the constructor and Get/List have exactly the hit/miss/append shape, and the PDF writer creates a font's subsetter only when the font has none (a second writing direction must not reset the codes already written); (2) fonts used for vertical text are kept in their own map and written with the matching vertical flag (Identity-V vs Identity-H), every font map that reserves an object is written in Close, and every Tf operand names a font registered in the page's resources (E5 font-map and resource rules). (3) the ToUnicode grouping loop keeps `start+length` equal to the visited code (E11.run-covers-codes). NOT decided: outlines, advances, the W array contents, the characters the ToUnicode map names, glyph placement in toPath.",
 		Run: func(c *core.Ctx, r *core.Report) {
+			E11SpanOffsetAxes(c, r)
 			E5CMapBlockLimit(c, r)
 			E5SignedRounding(c, r)
 			E5NameMemoScope(c, r)
@@ -460,6 +467,8 @@ func init() {
 		Title:       "Imported SVG documents draw the geometry the SVG specifies",
 		Explanation: "Decides the unit and coverage tables of the importer for every document: parseDimension's factors equal the CSS absolute-unit and angle tables (constant folding); the canvas size is in millimetres on every branch (explicit width/height and viewBox fallback use the same px→mm factor) and init uses the inverse factor, the y-down coordinate system and the size/viewBox user-unit scale (px→mm without a viewBox); drawShape has a case for each basic shape; the path data parser's index guards and explicit-panic freedom are decided under C11. NOT decided: styling precedence, CSS selectors, transform order, per-element geometry, the write/read round trip.",
 		Run: func(c *core.Ctx, r *core.Report) {
+			E11AboutIsConjugation(c, r)
+			E11MatrixComposers(c, r)
 			E11ZeroFactor(c, r)
 			E11SVGKeywordInitial(c, r)
 			E11EmptyValueAccepted(c, r)
@@ -579,6 +588,7 @@ func init() {
 		Explanation: "Decides one clause for every path and matrix: the rotation of elliptical arcs is handled in consistent angle units through Transform, Matrix.Rotate, Join, Reverse, the scanners and the arc helpers — a whole-package unit inference (radians/degrees) over SSA finds no value used in both units, the rotation slot of arc records is radians everywhere it is read or written, and the documented units of ArcTo/Arc/Matrix.Rotate (degrees) are reproduced. A missing or doubled conversion is invisible to tests whose arcs have rotation 0. NOT decided: the matrix algebra (Mul/Dot/Inv/T/Decompose), the eigen-decomposition in Transform, the sweep flip under reflection, which points a transformed segment contains.",
 		Assumptions: []string{"unit seeds: math trigonometric functions take/return radians; x*180/π and x*π/180 are the only conversions", "values multiplied by non-constant factors get a fresh unit variable (no false conflicts from scalars)"},
 		Run: func(c *core.Ctx, r *core.Report) {
+			E11ArcRotationRewritten(c, r)
 			E11SVGMatrixOrder(c, r)
 			E8Units(c, r)
 			E11SweepFlip(c, r)
